@@ -235,9 +235,20 @@ pub fn worker_main(args: &Args) -> i32 {
             Some("group") => {
                 let tier = Tier::from_name(job.get("tier").and_then(Value::as_str).unwrap_or("inproc"));
                 let idx = job.get("idx").and_then(Value::as_u64).unwrap_or(0) as usize;
-                let spec = sim_group::derive_spec(args.seed, tier, idx, &corpus, shape_for(args, tier));
                 let tag = format!("{}-g{}", tier.name(), idx);
                 let t0 = std::time::Instant::now();
+                if tier == Tier::Exec && idx < 3 && job.get("no_probe").is_none() {
+                    // the first three exec groups of every run are the stack-boundary probes
+                    let (spec, out) = sim_group::stack_boundary_probe(args.seed, idx, &envs, &tag);
+                    let mut v = outcome_json(&spec, &out, false, true);
+                    v["idx"] = json!(idx);
+                    v["wall_ms"] = json!(t0.elapsed().as_millis() as u64);
+                    if writeln!(reply_channel, "{v}").is_err() || reply_channel.flush().is_err() {
+                        break;
+                    }
+                    continue;
+                }
+                let spec = sim_group::derive_spec(args.seed, tier, idx, &corpus, shape_for(args, tier));
                 let run = || {
                     let out = sim_group::run_spec(&spec, &envs, &tag, true);
                     let mut v = outcome_json(&spec, &out, false, true);
